@@ -563,6 +563,22 @@ class RunShape:
                     continue
                 self.unpacks.append((n.id, k))
                 self.cb, self.a, self.kw = names
+        if not self.unpacks and self.item:
+            slots = {}
+            for n in g.nodes:
+                if n.kind == "stmt" and g.reachable(n.id):
+                    for t, v in targets_values(n.ast):
+                        if isinstance(t, ast.Name) and isinstance(v, ast.Subscript) and is_name(v.value, self.item):
+                            slots.setdefault(t.id, []).append((n.id, const_int(v.slice) if const_int(v.slice) is not None else v.slice))
+            used = None
+            for n in g.nodes:
+                if n.kind == "stmt" and g.reachable(n.id) and isinstance(n.ast, ast.Assign) and len(n.ast.targets) == 1 \
+                        and isinstance(n.ast.targets[0], ast.Tuple) and len(n.ast.targets[0].elts) == 3 and isinstance(n.ast.value, ast.Name) \
+                        and n.ast.value.id in slots and all(isinstance(e, ast.Name) for e in n.ast.targets[0].elts):
+                    self.cb, self.a, self.kw = [e.id for e in n.ast.targets[0].elts]
+                    used = n.ast.value.id
+            if used:
+                self.unpacks = sorted(slots[used], key=lambda x: x[0])   # the slot choice is made where item[k] is read
         ctx.need(self.unpacks, "unpacking `callback, args, kwargs = item[k]` in Deferred._runCallbacks")
         self.callouts: List[int] = call_nodes(g, lambda c: is_name(c.func, self.cb))
         ctx.need(self.callouts, "the user callback call-out in Deferred._runCallbacks")
